@@ -5,7 +5,8 @@
    zero.  Out-of-order inserts touch only the index (DB.v: insert_loop appends to storage in
    every branch). *)
 From Coq Require Import List ZArith NArith Bool.
-From TF Require Import Base Query Index DB IO proofs.IOP.
+From TF Require Import Base Query Index DB IO proofs.IOP proofs.IOGenP.
+From TF Require gen.IOGen.
 Import ListNotations.
 
 Theorem C16_old_is_prefix : forall old rows,
@@ -24,8 +25,15 @@ Theorem C16_reads_nothing : forall old rows,
   ~ In PTruncate0 (script_of old (PlAppend rows)).
 Proof. exact append_script_no_read. Qed.
 
+(* the I/O calls REGENERATED from tinyflux/storages.py on every run (gen/IOGen.v: symbolic execution of CSVStorage.append, _write([]) / reset,
+   _init_temp_storage, _swap_temp_with_primary, _cleanup_temp_storage, __iter__ along their success path) are the scripts of the model, for every
+   plan of an operation: every theorem of this file about script_of is a theorem about the calls the source makes now *)
+Theorem C16_source_scripts_are_the_model : forall old p, gen_script_of old p = script_of old p.
+Proof. exact gen_script_of_eq. Qed.
+
 Print Assumptions C16_old_is_prefix.
 Print Assumptions C16_appends_exactly.
 Print Assumptions C16_same_calls_at_every_size.
 Print Assumptions C16_constant_calls_per_point.
 Print Assumptions C16_reads_nothing.
+Print Assumptions C16_source_scripts_are_the_model.
